@@ -24,6 +24,17 @@ CHECKS = {
         design_ref="DESIGN.md §5 C11",
         note="Encoders/decoders are modelled by hand (Model/Encode.lean) and tied by correspondence; tables are verified "
              "against the source on every run."),
+    "C01": dict(
+        technique="Lean 4 proof of the shortcut layers (perfect-hash scheme lookup over regenerated tables) + "
+                  "WPT-validated Lean Spec of the basic URL parser run against the code (correspondence)",
+        text="Lean 4: a structured transcription of the WHATWG basic URL parser, host parsers and serializer (Spec/Url.lean, "
+             "Spec/Host.lean) validated on every run against all WPT url vectors; theorems prove for all byte strings that "
+             "ada's perfect-hash scheme lookup (generated key tables) equals list lookup. Both URL types are compared with "
+             "the Spec on generated (input, base) pairs: href, all getters, origin, opaque flag. State-machine conformance "
+             "itself rests on that correspondence (differential, generator-bounded), not on a theorem.",
+        design_ref="DESIGN.md §5 C01",
+        note="Spec.parse is a hand transcription of the Standard (trusted, validated by WPT); parse_url_impl is compared, "
+             "not modelled. IDNA answers inside the Spec come from ada::idna (C06)."),
 }
 
 NOT_YET = "check not built yet (work in progress in this session; see DESIGN.md §8 build order)"
